@@ -1,0 +1,14 @@
+//go:build verif
+
+package dhcpv6
+
+import "net"
+
+// Verification seams for property C09 (decoder hammer in /verif): exported
+// wrappers around unexported functions / fields, no behaviour of their own.
+
+// VerifC09HandleMessage calls the real message dispatcher (what receiveLoop does after ParseMessage).
+func (s *Server) VerifC09HandleMessage(msg *Message, addr *net.UDPAddr) { s.handleMessage(msg, addr) }
+
+// VerifC09SetConn installs the UDP socket replies are written to (what Start does after ListenUDP).
+func (s *Server) VerifC09SetConn(conn *net.UDPConn) { s.conn = conn }
